@@ -1,29 +1,9 @@
 import Pcore.Proofs.ValueEqTy
-/-! Helper lemmas for C07: the key of a type determines the type up to *ordered* equality (`tyEqO`: like `Equals`, but
-    the members of a Variant and the values of an Enum are compared position by position). -/
+import Pcore.Proofs.ValueEqSort
+/-! Helper lemmas for C07: the key of a type decides `Equals` exactly (`tyKey_iff`).  The members of a Variant and the values
+    of an Enum enter the key as a SET of a given size (`appendUnorderedTypeParamKeys`: the count, then the distinct element
+    keys in ascending order), which is what their `Equals` compares. -/
 namespace Pcore.ValueEq
-
-mutual
-/-- order-sensitive type equality: what the key of a type can see -/
-def tyEqO : Ty → Ty → Bool
-  | .any, b => match b with | .any => true | _ => false
-  | .undef, b => match b with | .undef => true | _ => false
-  | .str, b => match b with | .str => true | _ => false
-  | .int lo hi, b => match b with | .int lo' hi' => lo == lo' && hi == hi' | _ => false
-  | .flt lo hi, b => match b with | .flt lo' hi' => feq lo lo' && feq hi hi' | _ => false
-  | .enum ci vs, b => match b with | .enum ci' vs' => ci == ci' && vs == vs' | _ => false
-  | .arr e lo hi, b => match b with | .arr e' lo' hi' => (lo == lo' && hi == hi') && tyEqO e e' | _ => false
-  | .var ts, b => match b with | .var us => ts.length == us.length && tyEqOL ts us | _ => false
-  | .tup ts sz, b =>
-      match b with
-      | .tup us sz' => ts.length == us.length && goaSize ts.length sz == goaSize us.length sz' && tyEqOL ts us
-      | _ => false
-  | .opt t, b => match b with | .opt u => tyEqO t u | _ => false
-  | .typ t, b => match b with | .typ u => tyEqO t u | _ => false
-def tyEqOL : List Ty → List Ty → Bool
-  | [], _ => true
-  | t :: ts, us => match us with | u :: us' => tyEqO t u && tyEqOL ts us' | [] => false
-end
 
 /-! ### the parameters of a type as a list of keys -/
 
@@ -41,10 +21,10 @@ def tyParamL : Ty → List Bytes
   | .any => [] | .undef => [] | .str => []
   | .int lo hi => intParamL lo hi
   | .flt lo hi => fltParamL lo hi
-  | .enum ci vs => vs.map (strMark ++ ·) ++ (if ci then [boolKey true] else [])
+  | .enum ci vs => intKey (enumKeys ci vs).length :: dedupS (sortB (enumKeys ci vs))
   | .arr e lo hi => (if e.isAny ∧ ¬ (lo = 0 ∧ hi = 0) then [] else [tyKey e]) ++
       (if lo = 0 ∧ hi = maxInt then [] else sizeParamL lo hi)
-  | .var ts => ts.map tyKey
+  | .var ts => intKey ts.length :: dedupS (sortB (ts.map tyKey))
   | .tup ts sz => ts.map tyKey ++ sizeParamL (goaSize ts.length sz).1 (goaSize ts.length sz).2
   | .opt t => if t.isAny then [] else [tyKey t]
   | .typ t => if t.isAny then [] else [tyKey t]
@@ -58,9 +38,13 @@ theorem tyKeys_eq : ∀ ts : List Ty, tyKeys ts = flat ((ts.map tyKey).map frame
   | [] => rfl
   | t :: ts => by simp [tyKeys, flat, tyKeys_eq ts]
 
-theorem enumParams_eq : ∀ vs : List Bytes, enumParams vs = flat ((vs.map (strMark ++ ·)).map frame)
+theorem tyKeyL_eq : ∀ ts : List Ty, tyKeyL ts = ts.map tyKey
   | [] => rfl
-  | v :: vs => by simp [enumParams, flat, ekStr, enumParams_eq vs]
+  | t :: ts => by simp [tyKeyL, tyKeyL_eq ts]
+
+theorem frames_eq : ∀ ks : List Bytes, frames ks = flat (ks.map frame)
+  | [] => rfl
+  | k :: ks => by simp [frames, flat, frames_eq ks]
 
 theorem tyKey_shape (t : Ty) : tyKey t = [1, 0x74] ++ (frame (strMark ++ t.name) ++ flat ((tyParamL t).map frame)) := by
   cases t with
@@ -73,13 +57,11 @@ theorem tyKey_shape (t : Ty) : tyKey t = [1, 0x74] ++ (frame (strMark ++ t.name)
   | flt lo hi =>
     simp only [tyKey, tyParamL, fltParams, fltParamL, ekStr, ekDefault, ekFloat]
     split <;> split <;> simp [flat]
-  | enum ci vs =>
-    simp only [tyKey, tyParamL, ekStr, enumParams_eq, List.map_append, flat_append, ekBool]
-    cases ci <;> simp [flat]
+  | enum ci vs => simp [tyKey, tyParamL, Ty.name, ekStr, ekInt, unorderedParams, frames_eq, flat]
   | arr e lo hi =>
     simp only [tyKey, tyParamL, Ty.name, ekStr, List.map_append, flat_append, sizeParams, sizeParamL, ekInt, ekDefault]
     split <;> split <;> (try split) <;> simp [flat]
-  | var ts => simp [tyKey, tyParamL, Ty.name, ekStr, tyKeys_eq]
+  | var ts => simp [tyKey, tyParamL, Ty.name, ekStr, ekInt, unorderedParams, frames_eq, flat, tyKeyL_eq]
   | tup ts sz =>
     simp only [tyKey, tyParamL, Ty.name, ekStr, List.map_append, flat_append, tyKeys_eq, sizeParams, sizeParamL,
       ekInt, ekDefault]
@@ -198,17 +180,17 @@ theorem map_tyKey_isTyKey (ts : List Ty) : ∀ a ∈ ts.map tyKey, IsTyKey a := 
 theorem isAny_eq {t : Ty} (h : t.isAny = true) : t = .any := by
   cases t <;> simp [Ty.isAny] at h; rfl
 
-theorem tyEqO_any_left (t : Ty) : tyEqO .any t = t.isAny := by cases t <;> simp [tyEqO, Ty.isAny]
-theorem tyEqO_any_right (t : Ty) : tyEqO t .any = t.isAny := by cases t <;> simp [tyEqO, Ty.isAny]
+theorem tyEq_any_left (t : Ty) : tyEq .any t = t.isAny := by cases t <;> simp [tyEq, Ty.isAny]
+theorem tyEq_any_right (t : Ty) : tyEq t .any = t.isAny := by cases t <;> simp [tyEq, Ty.isAny]
 
 /-- the optional leading type parameter of Array / Optional / Type -/
-theorem optParam_iff {e e' : Ty} (ih : tyKey e = tyKey e' ↔ tyEqO e e' = true) :
-    (if e.isAny then [] else [tyKey e]) = (if e'.isAny then [] else [tyKey e']) ↔ tyEqO e e' = true := by
+theorem optParam_iff {e e' : Ty} (ih : tyKey e = tyKey e' ↔ tyEq e e' = true) :
+    (if e.isAny then [] else [tyKey e]) = (if e'.isAny then [] else [tyKey e']) ↔ tyEq e e' = true := by
   cases h : e.isAny <;> cases h' : e'.isAny
   · simp [ih]
-  · rw [isAny_eq h', tyEqO_any_right, h]; simp
-  · rw [isAny_eq h, tyEqO_any_left, h']; simp
-  · rw [isAny_eq h, isAny_eq h']; simp [tyEqO]
+  · rw [isAny_eq h', tyEq_any_right, h]; simp
+  · rw [isAny_eq h, tyEq_any_left, h']; simp
+  · rw [isAny_eq h, isAny_eq h']; simp [tyEq]
 
 theorem map_strMark_inj : ∀ {vs vs' : List Bytes}, vs.map (strMark ++ ·) = vs'.map (strMark ++ ·) ↔ vs = vs'
   | [], [] => by simp
@@ -216,35 +198,89 @@ theorem map_strMark_inj : ∀ {vs vs' : List Bytes}, vs.map (strMark ++ ·) = vs
   | _ :: _, [] => by simp
   | v :: vs, v' :: vs' => by simp [map_strMark_inj (vs := vs) (vs' := vs')]
 
+theorem lenOk {n : Nat} (h : n ≤ 9223372036854775807) : IntOk (n : Int) := by
+  simp only [IntOk, minInt, maxInt]; omega
+
+theorem TyWFL_mem : ∀ {ts : List Ty}, TyWFL ts = true → ∀ t ∈ ts, TyWF t = true
+  | [], _, _, h => by simp at h
+  | t' :: ts, hw, t, ht => by
+      simp only [TyWFL, Bool.and_eq_true] at hw
+      rcases List.mem_cons.mp ht with e | ht
+      · rw [e]; exact hw.1
+      · exact TyWFL_mem hw.2 t ht
+
+theorem enumKeys_length (ci : Bool) (vs : List Bytes) : (enumKeys ci vs).length = vs.length + (if ci then 1 else 0) := by
+  cases ci <;> simp [enumKeys]
+
+theorem mem_enumKeys_str (ci : Bool) (vs : List Bytes) (v : Bytes) : strMark ++ v ∈ enumKeys ci vs ↔ v ∈ vs := by
+  cases ci <;> simp [enumKeys, strMark, boolKey]
+
+theorem mem_enumKeys_flag (ci : Bool) (vs : List Bytes) : boolKey true ∈ enumKeys ci vs ↔ ci = true := by
+  cases ci <;> simp [enumKeys, strMark, boolKey]
+
+theorem mem_enumKeys (ci : Bool) (vs : List Bytes) (x : Bytes) :
+    x ∈ enumKeys ci vs ↔ (∃ v ∈ vs, x = strMark ++ v) ∨ (ci = true ∧ x = boolKey true) := by
+  cases ci <;> simp [enumKeys, eq_comm]
+
+theorem containsAll_iff (a b : List Bytes) : containsAll a b = true ↔ ∀ s ∈ b, s ∈ a := by
+  simp [containsAll]
+
+/-- the parameters of an Enum: the count and the set of element keys decide `Equals` -/
+theorem enumParam_iff {ci ci' : Bool} {vs vs' : List Bytes} (ha : vs.length < 9223372036854775807)
+    (hb : vs'.length < 9223372036854775807) :
+    (intKey (enumKeys ci vs).length = intKey (enumKeys ci' vs').length ∧
+        dedupS (sortB (enumKeys ci vs)) = dedupS (sortB (enumKeys ci' vs'))) ↔
+      ((ci = ci' ∧ vs.length = vs'.length) ∧ containsAll vs vs' = true) ∧ containsAll vs' vs = true := by
+  rw [dedupS_sortB_eq_iff, containsAll_iff, containsAll_iff,
+    intKey_inj (lenOk (by rw [enumKeys_length]; split <;> omega)) (lenOk (by rw [enumKeys_length]; split <;> omega))]
+  constructor
+  · rintro ⟨hl, hm⟩
+    have hc : ci = ci' := by
+      have := hm (boolKey true)
+      rw [mem_enumKeys_flag, mem_enumKeys_flag] at this
+      cases ci <;> cases ci' <;> simp_all
+    subst hc
+    have hl' : (enumKeys ci vs).length = (enumKeys ci vs').length := by exact_mod_cast hl
+    rw [enumKeys_length, enumKeys_length] at hl'
+    refine ⟨⟨⟨rfl, by omega⟩, fun s hs => ?_⟩, fun s hs => ?_⟩
+    · exact (mem_enumKeys_str ci vs s).mp ((hm _).mpr ((mem_enumKeys_str ci vs' s).mpr hs))
+    · exact (mem_enumKeys_str ci vs' s).mp ((hm _).mp ((mem_enumKeys_str ci vs s).mpr hs))
+  · rintro ⟨⟨⟨hc, hl⟩, h1⟩, h2⟩
+    subst hc
+    refine ⟨by rw [enumKeys_length, enumKeys_length, hl], fun x => ?_⟩
+    rw [mem_enumKeys, mem_enumKeys]
+    constructor
+    · rintro (⟨v, hv, rfl⟩ | h)
+      · exact Or.inl ⟨v, h2 v hv, rfl⟩
+      · exact Or.inr h
+    · rintro (⟨v, hv, rfl⟩ | h)
+      · exact Or.inl ⟨v, h1 v hv, rfl⟩
+      · exact Or.inr h
+
 mutual
-theorem tyKey_iff_O : ∀ a b : Ty, TyWF a = true → TyWF b = true → (tyKey a = tyKey b ↔ tyEqO a b = true)
-  | .any, b, _, _ => by rw [tyKey_eq_iff]; cases b <;> simp [Ty.name, tyEqO, tyParamL]
-  | .undef, b, _, _ => by rw [tyKey_eq_iff]; cases b <;> simp [Ty.name, tyEqO, tyParamL]
-  | .str, b, _, _ => by rw [tyKey_eq_iff]; cases b <;> simp [Ty.name, tyEqO, tyParamL]
+theorem tyKey_iff : ∀ a b : Ty, TyWF a = true → TyWF b = true → (tyKey a = tyKey b ↔ tyEq a b = true)
+  | .any, b, _, _ => by rw [tyKey_eq_iff]; cases b <;> simp [Ty.name, tyEq, tyParamL]
+  | .undef, b, _, _ => by rw [tyKey_eq_iff]; cases b <;> simp [Ty.name, tyEq, tyParamL]
+  | .str, b, _, _ => by rw [tyKey_eq_iff]; cases b <;> simp [Ty.name, tyEq, tyParamL]
   | .int lo hi, b, ha, hb => by
       rw [tyKey_eq_iff]
-      cases b <;> simp [Ty.name, tyEqO, tyParamL]
+      cases b <;> simp [Ty.name, tyEq, tyParamL]
       simp only [TyWF, Bool.and_eq_true, decide_eq_true_eq] at ha hb
       exact intParamL_inj ha.1 ha.2 hb.1 hb.2
   | .flt lo hi, b, ha, hb => by
       rw [tyKey_eq_iff]
-      cases b <;> simp [Ty.name, tyEqO, tyParamL]
+      cases b <;> simp [Ty.name, tyEq, tyParamL]
       simp only [TyWF, Bool.and_eq_true, decide_eq_true_eq, Bool.not_eq_true'] at ha hb
       exact fltParamL_inj ha.1 ha.2 hb.1 hb.2
-  | .enum ci vs, b, _, _ => by
+  | .enum ci vs, b, ha, hb => by
       rw [tyKey_eq_iff]
-      cases b <;> simp [Ty.name, tyEqO, tyParamL]
+      cases b <;> simp [Ty.name, tyEq, tyParamL]
       rename_i ci' vs'
-      rw [append_sep (P := IsStrKey)]
-      · rw [map_strMark_inj]
-        cases ci <;> cases ci' <;> simp [boolKey, and_comm]
-      · intro a ha; obtain ⟨v, _, rfl⟩ := List.mem_map.mp ha; exact ⟨v, by simp [strMark]⟩
-      · intro a ha; obtain ⟨v, _, rfl⟩ := List.mem_map.mp ha; exact ⟨v, by simp [strMark]⟩
-      · intro s hs; split at hs <;> simp at hs; subst hs; simp [IsStrKey, boolKey]
-      · intro s hs; split at hs <;> simp at hs; subst hs; simp [IsStrKey, boolKey]
+      simp only [TyWF, decide_eq_true_eq] at ha hb
+      exact enumParam_iff ha hb
   | .arr e lo hi, b, ha, hb => by
       rw [tyKey_eq_iff]
-      cases b <;> simp [Ty.name, tyEqO, tyParamL]
+      cases b <;> simp [Ty.name, tyEq, tyParamL]
       rename_i e' lo' hi'
       simp only [TyWF, Bool.and_eq_true, decide_eq_true_eq] at ha hb
       rw [append_sep (P := IsTyKey)]
@@ -261,18 +297,18 @@ theorem tyKey_iff_O : ∀ a b : Ty, TyWF a = true → TyWF b = true → (tyKey a
           subst h2; subst h3
           refine ⟨⟨rfl, rfl⟩, ?_⟩
           by_cases c : lo = 0 ∧ hi = 0
-          · simpa [c, tyKey_iff_O e e' ha.1 hb.1] using h1
+          · simpa [c, tyKey_iff e e' ha.1 hb.1] using h1
           · have q : (lo = 0 → ¬hi = 0) := fun a b => c ⟨a, b⟩
             simp only [eq_true q, and_true] at h1
-            exact (optParam_iff (tyKey_iff_O e e' ha.1 hb.1)).mp h1
+            exact (optParam_iff (tyKey_iff e e' ha.1 hb.1)).mp h1
         · rintro ⟨⟨h2, h3⟩, h1⟩
           subst h2; subst h3
           refine ⟨?_, rfl, rfl⟩
           by_cases c : lo = 0 ∧ hi = 0
-          · simpa [c, tyKey_iff_O e e' ha.1 hb.1] using h1
+          · simpa [c, tyKey_iff e e' ha.1 hb.1] using h1
           · have q : (lo = 0 → ¬hi = 0) := fun a b => c ⟨a, b⟩
             simp only [eq_true q, and_true]
-            exact (optParam_iff (tyKey_iff_O e e' ha.1 hb.1)).mpr h1
+            exact (optParam_iff (tyKey_iff e e' ha.1 hb.1)).mpr h1
       · intro a ha'; split at ha' <;> simp at ha'; subst ha'; exact tyKey_hd e
       · intro a ha'; split at ha' <;> simp at ha'; subst ha'; exact tyKey_hd e'
       · intro s hs; split at hs
@@ -282,18 +318,37 @@ theorem tyKey_iff_O : ∀ a b : Ty, TyWF a = true → TyWF b = true → (tyKey a
         · simp at hs
         · exact not_isTyKey_size s hs
   | .var ts, b, ha, hb => by
-      rw [tyKey_eq_iff]
-      cases b <;> simp [Ty.name, tyEqO, tyParamL]
-      rename_i us
-      simp only [TyWF] at ha hb
-      exact tyKey_iff_OL ts us ha hb
+      cases b with
+      | var us =>
+        simp only [TyWF, Bool.and_eq_true, decide_eq_true_eq] at ha hb
+        rw [tyKey_eq_iff, tyEq_var]
+        simp only [Ty.name, tyParamL, List.cons.injEq, true_and, dedupS_sortB_eq_iff]
+        rw [intKey_inj (lenOk ha.2) (lenOk hb.2)]
+        have ih : ∀ v ∈ ts, ∀ u ∈ us, (tyKey v = tyKey u ↔ tyEq v u = true) :=
+          fun v hv u hu => tyKey_iff_all ts ha.1 v hv u (TyWFL_mem hb.1 u hu)
+        constructor
+        · rintro ⟨hl, hm⟩
+          refine ⟨by exact_mod_cast hl, fun v hv => ?_, fun u hu => ?_⟩
+          · obtain ⟨u, hu, e⟩ := List.mem_map.mp ((hm (tyKey v)).mp (List.mem_map_of_mem hv))
+            exact ⟨u, hu, (ih v hv u hu).mp e.symm⟩
+          · obtain ⟨v, hv, e⟩ := List.mem_map.mp ((hm (tyKey u)).mpr (List.mem_map_of_mem hu))
+            exact ⟨v, hv, (ih v hv u hu).mp e⟩
+        · rintro ⟨hl, h1, h2⟩
+          refine ⟨by exact_mod_cast hl, fun x => ⟨fun hx => ?_, fun hx => ?_⟩⟩
+          · obtain ⟨v, hv, rfl⟩ := List.mem_map.mp hx
+            obtain ⟨u, hu, e⟩ := h1 v hv
+            rw [(ih v hv u hu).mpr e]; exact List.mem_map_of_mem hu
+          · obtain ⟨u, hu, rfl⟩ := List.mem_map.mp hx
+            obtain ⟨v, hv, e⟩ := h2 u hu
+            rw [← (ih v hv u hu).mpr e]; exact List.mem_map_of_mem hv
+      | _ => rw [tyKey_eq_iff]; simp [Ty.name, tyEq]
   | .tup ts sz, b, ha, hb => by
       rw [tyKey_eq_iff]
-      cases b <;> simp [Ty.name, tyEqO, tyParamL]
+      cases b <;> simp [Ty.name, tyEq, tyParamL]
       rename_i us sz'
       simp only [TyWF, Bool.and_eq_true, decide_eq_true_eq] at ha hb
       rw [append_sep (P := IsTyKey) (map_tyKey_isTyKey ts) (map_tyKey_isTyKey us) not_isTyKey_size not_isTyKey_size,
-        tyKey_iff_OL ts us ha.1.1 hb.1.1]
+        tyKey_iff_L ts us ha.1.1 hb.1.1]
       have ok : ∀ (n : Nat) (sz : Option (Int × Int)), (n : Int) ≤ maxInt →
           (match sz with
             | some (lo, hi) => ((decide (minInt ≤ lo) && decide (lo ≤ maxInt)) && (decide (minInt ≤ hi) && decide (hi ≤ maxInt)))
@@ -314,95 +369,43 @@ theorem tyKey_iff_O : ∀ a b : Ty, TyWF a = true → TyWF b = true → (tyKey a
         exact ⟨⟨h1, h3⟩, by rw [h2], by rw [h2]⟩
   | .opt t, b, ha, hb => by
       rw [tyKey_eq_iff]
-      cases b <;> simp [Ty.name, tyEqO, tyParamL]
+      cases b <;> simp [Ty.name, tyEq, tyParamL]
       rename_i u
       simp only [TyWF] at ha hb
-      exact optParam_iff (tyKey_iff_O t u ha hb)
+      exact optParam_iff (tyKey_iff t u ha hb)
   | .typ t, b, ha, hb => by
       rw [tyKey_eq_iff]
-      cases b <;> simp [Ty.name, tyEqO, tyParamL]
+      cases b <;> simp [Ty.name, tyEq, tyParamL]
       rename_i u
       simp only [TyWF] at ha hb
-      exact optParam_iff (tyKey_iff_O t u ha hb)
-theorem tyKey_iff_OL : ∀ ts us : List Ty, TyWFL ts = true → TyWFL us = true →
-    (ts.map tyKey = us.map tyKey ↔ ts.length = us.length ∧ tyEqOL ts us = true)
-  | [], [], _, _ => by simp [tyEqOL]
+      exact optParam_iff (tyKey_iff t u ha hb)
+theorem tyKey_iff_L : ∀ ts us : List Ty, TyWFL ts = true → TyWFL us = true →
+    (ts.map tyKey = us.map tyKey ↔ ts.length = us.length ∧ tyEqL ts us = true)
+  | [], [], _, _ => by simp [tyEqL]
   | [], _ :: _, _, _ => by simp
   | _ :: _, [], _, _ => by simp
   | t :: ts, u :: us, ha, hb => by
       simp only [TyWFL, Bool.and_eq_true] at ha hb
-      simp only [List.map_cons, List.cons.injEq, List.length_cons, tyEqOL, Bool.and_eq_true,
-        tyKey_iff_O t u ha.1 hb.1, tyKey_iff_OL ts us ha.2 hb.2]
+      simp only [List.map_cons, List.cons.injEq, List.length_cons, tyEqL, Bool.and_eq_true,
+        tyKey_iff t u ha.1 hb.1, tyKey_iff_L ts us ha.2 hb.2]
       constructor
       · rintro ⟨h1, h2, h3⟩; exact ⟨by omega, h1, h3⟩
       · rintro ⟨h1, h2, h3⟩; exact ⟨h2, by omega, h3⟩
-end
-
-/-! ### ordered equality implies `Equals` -/
-
-theorem incl_of_pointwise : ∀ {ts us : List Ty}, (∀ t ∈ ts, ∀ u, tyEqO t u = true → tyEq t u = true) →
-    ts.length = us.length → tyEqOL ts us = true →
-    (∀ v ∈ ts, ∃ u ∈ us, tyEq v u = true) ∧ (∀ u ∈ us, ∃ v ∈ ts, tyEq v u = true)
-  | [], [], _, _, _ => by simp
-  | [], _ :: _, _, h, _ => by simp at h
-  | _ :: _, [], _, h, _ => by simp at h
-  | t :: ts, u :: us, ih, hl, h => by
-      simp only [tyEqOL, Bool.and_eq_true] at h
-      have r := incl_of_pointwise (fun t' ht => ih t' (List.mem_cons_of_mem _ ht)) (by simpa using hl) h.2
-      have h0 := ih t List.mem_cons_self u h.1
-      constructor
-      · intro v hv
-        rcases List.mem_cons.mp hv with e | hv
-        · exact ⟨u, List.mem_cons_self, e ▸ h0⟩
-        · obtain ⟨u', hu', h'⟩ := r.1 v hv
-          exact ⟨u', List.mem_cons_of_mem _ hu', h'⟩
-      · intro u' hu'
-        rcases List.mem_cons.mp hu' with e | hu'
-        · exact ⟨t, List.mem_cons_self, e ▸ h0⟩
-        · obtain ⟨v, hv, h'⟩ := r.2 u' hu'
-          exact ⟨v, List.mem_cons_of_mem _ hv, h'⟩
-
-mutual
-theorem tyEq_of_O : ∀ a b : Ty, tyEqO a b = true → tyEq a b = true
-  | .any, b => by cases b <;> simp [tyEqO, tyEq]
-  | .undef, b => by cases b <;> simp [tyEqO, tyEq]
-  | .str, b => by cases b <;> simp [tyEqO, tyEq]
-  | .int _ _, b => by cases b <;> simp [tyEqO, tyEq]
-  | .flt _ _, b => by cases b <;> simp [tyEqO, tyEq]
-  | .enum _ _, b => by
-      cases b <;> simp [tyEqO, tyEq]
-      intro h1 h2; subst h1; subst h2; simp [containsAll_refl]
-  | .arr e _ _, b => by
-      cases b <;> simp [tyEqO, tyEq]
-      intro h1 h2 h3; exact ⟨⟨h1, h2⟩, tyEq_of_O e _ h3⟩
-  | .var ts, b => by
-      cases b with
-      | var us =>
-        rw [tyEq_var]
-        simp only [tyEqO, Bool.and_eq_true, beq_iff_eq]
-        rintro ⟨hl, h⟩
-        exact ⟨hl, incl_of_pointwise (tyEq_of_O_all ts) hl h⟩
-      | _ => simp [tyEqO]
-  | .tup ts _, b => by
-      cases b <;> simp [tyEqO, tyEq]
-      intro h1 h2 h3; exact ⟨⟨h1, h2⟩, tyEqL_of_O ts _ h3⟩
-  | .opt t, b => by cases b <;> simp [tyEqO, tyEq]; exact tyEq_of_O t _
-  | .typ t, b => by cases b <;> simp [tyEqO, tyEq]; exact tyEq_of_O t _
-theorem tyEq_of_O_all : ∀ ts : List Ty, ∀ t ∈ ts, ∀ u, tyEqO t u = true → tyEq t u = true
-  | [], _, h => by simp at h
-  | t' :: ts, t, ht => by
-      rcases List.mem_cons.mp ht with e | ht
-      · rw [e]; exact tyEq_of_O t'
-      · exact tyEq_of_O_all ts t ht
-theorem tyEqL_of_O : ∀ ts us : List Ty, tyEqOL ts us = true → tyEqL ts us = true
-  | [], _ => by simp [tyEqL]
-  | t :: ts, us => by
-      cases us <;> simp [tyEqOL, tyEqL]
-      intro h1 h2; exact ⟨tyEq_of_O t _ h1, tyEqL_of_O ts _ h2⟩
+theorem tyKey_iff_all : ∀ ts : List Ty, TyWFL ts = true → ∀ v ∈ ts, ∀ u, TyWF u = true → (tyKey v = tyKey u ↔ tyEq v u = true)
+  | [], _, _, h => by simp at h
+  | t :: ts, ha, v, hv => by
+      simp only [TyWFL, Bool.and_eq_true] at ha
+      rcases List.mem_cons.mp hv with e | hv
+      · rw [e]; exact fun u hu => tyKey_iff t u ha.1 hu
+      · exact tyKey_iff_all ts ha.2 v hv
 end
 
 /-- equal keys ⇒ equal types: a Hash / `Unique` never confuses two different types -/
 theorem tyEq_of_tyKey (a b : Ty) (ha : TyWF a = true) (hb : TyWF b = true) (h : tyKey a = tyKey b) : tyEq a b = true :=
-  tyEq_of_O a b ((tyKey_iff_O a b ha hb).mp h)
+  (tyKey_iff a b ha hb).mp h
+
+/-- equal types ⇒ equal keys: a Hash finds a type under every spelling of it, `Unique` keeps one -/
+theorem tyKey_of_tyEq (a b : Ty) (ha : TyWF a = true) (hb : TyWF b = true) (h : tyEq a b = true) : tyKey a = tyKey b :=
+  (tyKey_iff a b ha hb).mpr h
 
 end Pcore.ValueEq
